@@ -87,3 +87,10 @@ Example C17_examples :
       | RNormal st => output st = T "4" ++ [10]
       | _ => False end).
 Proof. split; [reflexivity|]. split; vm_compute; reflexivity. Qed.
+
+(** integers are 64-bit, every operation is checked: overflow is a run-time error, never a wrapped value *)
+Example C17_checked_arithmetic :
+  arith OMul 4611686018427387904 2 = None /\ arith OAdd 9223372036854775807 1 = None
+  /\ arith OSub (-9223372036854775808) 1 = None /\ arith OMul 3037000499 3037000499 = Some 9223372030926249001%Z
+  /\ arith ODiv 7 0 = None /\ arith ODiv (-7) 2 = Some (-3)%Z /\ arith OMod (-7) 3 = Some (-1)%Z.
+Proof. vm_compute. repeat split. Qed.
